@@ -575,6 +575,35 @@ func (w *world) execOp(t int, op *Op, in *slotVal) (res opResult, out slotVal) {
 		guarded(&res, func() { res.addErr(vopUnmarshalTyped(p, b)) })
 		out = slotVal{def: true, pkt: p, pv: prov{dec: opUnmTyped, typ: kind, src: b, idx: -1}}
 		res.outPtr = p
+		if h := fnvBytes(0xcbf29ce484222325, b); h&1 == 1 && kind >= 0 && kind < len(kindNames) {
+			// Receiver reuse (clause c, call histories on one packet): the same octets decoded into an object that held
+			// another packet of the kind before - an unrelated one, or the same one - must give a packet that encodes,
+			// lists and prints like the one decoded into a fresh object.  (Copies of the octets: what the results
+			// alias is not the point here.)
+			nparts := len(res.parts)
+			var o2, o3 string
+			guarded(&res, func() {
+				pr, p2 := newOfKind(kind), newOfKind(kind)
+				prior := b
+				if h&2 == 2 {
+					if pe, err := vopMarshal(genPacket(kind, h>>2)); err == nil && len(pe) > 0 {
+						prior = pe
+					}
+				}
+				_ = vopUnmarshalTyped(pr, append([]byte(nil), prior...))
+				e2 := vopUnmarshalTyped(p2, append([]byte(nil), b...))
+				e3 := vopUnmarshalTyped(pr, append([]byte(nil), b...))
+				if e2 == nil && e3 == nil {
+					o2, o3 = observe(p2), observe(pr)
+				} else {
+					o2, o3 = "error == nil: "+boolText(e2 == nil), "error == nil: "+boolText(e3 == nil)
+				}
+			})
+			if len(res.parts) == nparts && o2 != o3 {
+				res.incons = true
+				res.pre, res.post = kindNames[kind]+" "+hexString(b)+" decoded into a fresh object: "+o2, "decoded into an object that held an earlier packet: "+o3
+			}
+		}
 	case opUnmAll:
 		b := in.b
 		guarded(&res, func() {
